@@ -33,6 +33,15 @@ func (t *fnTrans) instr(in ssa.Instruction) {
 		t.nilCheck(p, in.Pos(), "store")
 		t.lockDiscipline(p, true, in.Pos())
 		t.storePath(p, t.term(t.val(in.Val)))
+		// a local variable that holds a closure and is assigned exactly once (`bp := func..`): calls through it are static
+		if a, ok := in.Addr.(*ssa.Alloc); ok && !a.Heap && p.Cell != "" && len(p.Sels) == 0 {
+			if v := t.val(in.Val); v.Fn != nil && singleStore(a) {
+				if t.cellFn == nil {
+					t.cellFn = map[string]cellFnRec{}
+				}
+				t.cellFn[p.Cell] = cellFnRec{v, in.Block()}
+			}
+		}
 	case *ssa.UnOp:
 		t.unop(in)
 	case *ssa.BinOp:
@@ -180,6 +189,30 @@ func (t *fnTrans) instr(in ssa.Instruction) {
 			t.setVal(v, Val{T: t.freshVal("unsup", v.Type())})
 		}
 	}
+}
+
+type cellFnRec struct {
+	v   Val
+	blk *ssa.BasicBlock
+}
+
+// singleStore: the local cell is written by exactly one Store instruction (and never has its address passed on).
+func singleStore(a *ssa.Alloc) bool {
+	n := 0
+	for _, r := range *a.Referrers() {
+		switch x := r.(type) {
+		case *ssa.Store:
+			if x.Addr == a {
+				n++
+			} else {
+				return false // the address itself is stored somewhere
+			}
+		case *ssa.UnOp, *ssa.DebugRef:
+		default:
+			return false
+		}
+	}
+	return n == 1
 }
 
 func reaches(from, to *ssa.BasicBlock, t *fnTrans) bool {
@@ -335,6 +368,9 @@ func (t *fnTrans) unop(in *ssa.UnOp) {
 		r := t.defineReg(in, v)
 		if p.Cell == "" {
 			t.assume(t.wf(r.T, in.Type()))
+		} else if rec, ok := t.cellFn[p.Cell]; ok && len(p.Sels) == 0 && (rec.blk == in.Block() || rec.blk.Dominates(in.Block())) {
+			r.Fn, r.Bnd = rec.v.Fn, rec.v.Bnd
+			t.vals[in] = r
 		}
 	case token.NOT:
 		t.defineReg(in, fmt.Sprintf("(not %s)", t.term(t.val(in.X))))
